@@ -243,6 +243,10 @@ type c06Finding struct {
 	Actor  string
 	Seq    int64
 	Detail string
+	// BySystemStop: the PostStop involved was entered after the final system Stop
+	// had been called, i.e. this actor was stopped by the system teardown and not
+	// by the scenario's own termination path (which only names the target's)
+	BySystemStop bool
 }
 
 // c06Judge runs the per-(actor, incarnation) automaton over the log.
@@ -255,13 +259,24 @@ func c06Judge(evs []c06Ev) []c06Finding {
 		psOpen    bool
 		psGid     int64
 		psExitSeq int64
+		psEnterSeq int64
 		open      map[int64]int64 // gid -> RecvEnter seq of the Receive in progress on that goroutine
 	}
 	states := map[string]*st{}
 	var out []c06Finding
 	var cur c06Ev
+	finalStopSeq := int64(-1)
+	for _, e := range evs {
+		if e.Kind == c06StopCall && e.Note == "final sys.Stop" {
+			finalStopSeq = e.Seq
+		}
+	}
 	add := func(kind, actor, format string, args ...any) {
-		out = append(out, c06Finding{Kind: kind, Actor: actor, Seq: cur.Seq, Detail: fmt.Sprintf(format, args...)})
+		f := c06Finding{Kind: kind, Actor: actor, Seq: cur.Seq, Detail: fmt.Sprintf(format, args...)}
+		if s := states[actor]; s != nil && finalStopSeq >= 0 && s.psEnter > 0 && s.psEnterSeq > finalStopSeq {
+			f.BySystemStop = true
+		}
+		out = append(out, f)
 	}
 	for _, e := range evs {
 		if e.Kind == c06StopCall || e.Kind == c06StopRet {
@@ -299,6 +314,7 @@ func c06Judge(evs []c06Ev) []c06Finding {
 			delete(s.open, e.Gid)
 		case c06PostStopEnter:
 			s.psEnter++
+			s.psEnterSeq = e.Seq
 			if s.psEnter > 1 {
 				add("poststop-twice", e.Actor, "%v is PostStop entry number %d of incarnation %d", e, s.psEnter, s.inc)
 			}
@@ -596,13 +612,21 @@ func c06RunCase(t *testing.T, k c06Knobs, seed int64) c06Obs {
 		// the supervisor's Restart directive re-initialises the suspended actor (no PostStop, new PreStart)
 		stopCall("Tell(target,panic) with Restart directive", func() error { return Tell(ctx, target, &c06Msg{Cmd: "panic"}) })
 		wantStops = 0
-		if !verifrt.WaitUntil(30*time.Second, func() bool {
+		// the failing message sits behind the burst: the watchdog only runs while the
+		// target makes no progress at all (a loaded machine drains the backlog slowly)
+		lastHandled, lastChange := targetAct.handled.Load(), time.Now()
+		for targetAct.preDone.Load() < 2 {
 			if !suspensionSeen.Load() && target.IsSuspended() {
 				suspensionSeen.Store(true)
 			}
-			return targetAct.preDone.Load() >= 2
-		}) {
-			obs.Watchdog = "no second PreStart completed within 30s after a failure with Restart directive"
+			if h := targetAct.handled.Load(); h != lastHandled {
+				lastHandled, lastChange = h, time.Now()
+			}
+			if time.Since(lastChange) > 30*time.Second {
+				obs.Watchdog = "no second PreStart completed within 30s without progress after a failure with Restart directive"
+				break
+			}
+			time.Sleep(200 * time.Microsecond)
 		}
 		time.Sleep(time.Duration(rng.Intn(500)) * time.Microsecond)
 		restartsDone.Store(true)
